@@ -820,6 +820,10 @@ fn can_show_definition(ctx: &Context, name: &str) -> bool {
 fn expand_aliases(ctx: &Context, name: &str) -> (String, String) {
     let mut name = name.to_owned();
     let mut canon = ctx.canonicalize(&name).unwrap_or_else(|| name.clone());
+    // The definitions have no cycle of aliases, but canonicalizing an
+    // alias's target can lead back to a name that was already visited:
+    // with a definition `kilometer km`, `km` canonicalizes to kilometer.
+    let mut visited = std::collections::BTreeSet::new();
 
     while let Some(&Expr::Unit { name: ref unit }) = {
         ctx.registry
@@ -827,6 +831,9 @@ fn expand_aliases(ctx: &Context, name: &str) -> (String, String) {
             .get(&name)
             .or_else(|| ctx.registry.definitions.get(&*canon))
     } {
+        if !visited.insert(name.clone()) {
+            break;
+        }
         if ctx.registry.base_units.contains(&*name) {
             break;
         }
@@ -841,18 +848,15 @@ fn expand_aliases(ctx: &Context, name: &str) -> (String, String) {
                 if !ctx.registry.base_units.contains(&**unit) {
                     break;
                 } else {
-                    assert!(name != *unit || canon != unit_canon);
                     name = unit.clone();
                     canon = unit_canon;
                     break;
                 }
             } else {
-                assert!(name != unit_canon || canon != unit_canon);
                 name = unit_canon.clone();
                 canon = unit_canon;
             }
         } else {
-            assert!(name != *unit || canon != unit_canon);
             name = unit.clone();
             canon = unit_canon.clone();
         }
